@@ -116,7 +116,11 @@ impl TxtppPath for PathBuf {
                 Report::new(PathError::from(self))
                     .attach_printable(format!("path does not have {TXTPP_EXT} extension"))
             })?;
-            p.set_extension(self_ext);
+            // append instead of set_extension: the remaining name may contain dots itself
+            let mut name = p.into_os_string();
+            name.push(".");
+            name.push(self_ext);
+            p = PathBuf::from(name);
         }
 
         Ok(p)
